@@ -88,17 +88,19 @@ def run(crate, filters, jobs=8, harness_timeout=300, outer_timeout=3600, mem_gb=
     shell = pre + "exec " + " ".join(_q(c) for c in cmd)
     t0 = time.time()
     with Lock(crate):
+        proc = subprocess.Popen(["bash", "-c", shell], cwd=crate_dir(crate), env=ENV, stdout=subprocess.PIPE,
+                                stderr=subprocess.STDOUT, text=True, errors="replace", start_new_session=True)
         try:
-            p = subprocess.run(["bash", "-c", shell], cwd=crate_dir(crate), env=ENV,
-                               stdout=subprocess.PIPE, stderr=subprocess.STDOUT,
-                               timeout=outer_timeout, text=True, errors="replace")
-            out, rc, timed_out = p.stdout, p.returncode, False
-        except subprocess.TimeoutExpired as e:
-            out = (e.stdout or b"")
-            if isinstance(out, bytes):
-                out = out.decode("utf-8", "replace")
+            out, _ = proc.communicate(timeout=outer_timeout)
+            rc, timed_out = proc.returncode, False
+        except subprocess.TimeoutExpired:
+            # kill the whole process group (cargo-kani -> kani-driver -> cbmc ...)
+            try:
+                os.killpg(proc.pid, 9)
+            except ProcessLookupError:
+                pass
+            out, _ = proc.communicate()
             rc, timed_out = -9, True
-            subprocess.run(["pkill", "-x", "cbmc"])
     wall = time.time() - t0
     if log_path:
         os.makedirs(os.path.dirname(log_path), exist_ok=True)
